@@ -144,6 +144,9 @@ func r09_1(c *Ctx, r *Report) {
 		r.bad(rule, "external call "+k, c.pos(unk[k]), "external function without an effect model is called; the write inventory cannot be completed (undecided = fail)")
 	}
 	r.note("R09.1: %d package variables inventoried, %d store sites outside init", n, len(writes))
+	if c.Tier == "thorough" {
+		clientWrites(c, r, rule)
+	}
 	control(r, rule, "stores to package variables fx.COUNTER (direct) and fx.TABLE (element)", func(fc *Ctx) bool {
 		a, b := false, false
 		for _, w := range fc.globalWrites() {
@@ -346,4 +349,44 @@ func r09_5(c *Ctx, r *Report) {
 func isMapType(t types.Type) bool {
 	_, ok := t.Underlying().(*types.Map)
 	return ok
+}
+
+// clientWrites (thorough tier): the client packages of the repository (test, demo) do not
+// store to, or through, package variables of the library either (Fix is the only mutator they use).
+func clientWrites(c *Ctx, r *Report, rule string) {
+	cc, err := load(c.Repo, "quick", c.GoArch, true)
+	if err != nil {
+		r.bad(rule, "client packages (test, demo)", "-", "cannot load the client packages: "+err.Error())
+		return
+	}
+	n := 0
+	bad := 0
+	for _, fn := range cc.ClientFuncs {
+		if isInit(fn) {
+			continue
+		}
+		n++
+		ef := cc.eff.Of(fn)
+		for k, l := range ef.Writes {
+			if !strings.HasPrefix(l.Root, "g:") || strings.HasSuffix(l.Via, ".init") || strings.Contains(l.Via, ".init#") {
+				continue
+			}
+			g := strings.TrimPrefix(l.Root, "g:")
+			if _, ok := allowedGlobalWriters[g][l.Via]; ok {
+				continue
+			}
+			// a client's own package variables are its own business
+			if strings.HasPrefix(g, "test.") || strings.HasPrefix(g, "main.") || strings.HasPrefix(g, "demo.") {
+				continue
+			}
+			bad++
+			// a client mutating an exported variable is the client's doing, not a property of the
+			// library: listed for information, never a violation
+			r.ok(rule, "client write to "+g+" in "+fn.String()+" (informational)", cc.pos(l.Pos), "a client package of the repository stores to library package state ("+k+"); the library cannot prevent writes to its exported variables")
+		}
+	}
+	r.ok(rule, "client packages (test, demo)", "-", fmt.Sprintf("%d client functions analysed, %d store sites to library package state other than through HolidayUtil.Fix (listed)", n, bad))
+	if n < 200 {
+		r.bad(rule, "client packages loaded", "-", fmt.Sprintf("only %d client functions found (expected the 237 tests and the demo)", n))
+	}
 }
